@@ -137,6 +137,10 @@ func c13BFS(r *Run, strs []string, nkeys int, E []string, t uint32) {
 				for th := 0; th <= nkeys+2; th++ {
 					as = append(as, Act(fmt.Sprintf("threshold(%d) by %s", th, s.Name), &cctptypes.MsgUpdateSignatureThreshold{From: s.Str, Amount: uint32(th)}))
 				}
+				// 32-bit boundaries: sign bit, wrap-around neighbours, maximum
+				for _, th := range []uint32{1 << 16, 1<<31 - 1, 1 << 31, 1<<31 + 2, 1<<32 - 2, 1<<32 - 1} {
+					as = append(as, Act(fmt.Sprintf("threshold(%d) by %s", th, s.Name), &cctptypes.MsgUpdateSignatureThreshold{From: s.Str, Amount: th}))
+				}
 			}
 			return as
 		},
